@@ -337,6 +337,7 @@ def check(model, rep):
     rep.rules['R11.7'] = ('every leg wrench is a force at a point: makeWrench(position, magnitude, direction) = Wrench(direction * magnitude, position, frame) = [p x f ; f] '
                           'on every path, whatever the magnitude (rule function shared with C12 R12.3)')
     r118(model, rep, sp)
+    r119(model, rep, sp)
 
 
 def r118(model, rep, sp):
@@ -389,3 +390,14 @@ def r118(model, rep, sp):
                'paired, so the moment of the actuator weights about the plate is wrong whenever the two distances differ'
                % (sorted(mcomp), sorted('/'.join(k) for k in mkeys), sorted('/'.join(k) for k in ckeys)))
     rep.floor('R11.8', 'actuator components with a mass model', n, 2)
+
+
+def r119(model, rep, sp):
+    """Memo coherence over the Jacobian / statics methods of the platform (rule function shared with R08.7 / R06.8)."""
+    from . import memocoh
+    rep.rule('R11.9', 'Jacobian / statics methods of SP keep nothing between calls that a later pose or configuration change can outdate: every method that '
+             'writes a field a kept value was computed from also discards the kept value; a keyed memo is covered only for what its key compares')
+    allm = memocoh.all_methods(sp)
+    q = [fi for n, fi in sorted(allm.items()) if n.startswith(('inverseJacobian', 'altInverseJacobian', 'jacobian', 'staticForces', 'carryMassCalc', 'componentForces', 'measureForces'))]
+    memocoh.check(rep, 'R11.9', sp, q, 'inverse Jacobian / leg forces of a platform whose plates or base were moved since')
+    rep.floor('R11.9', 'Jacobian / statics methods of SP scanned', len(q), 6)
